@@ -16,7 +16,7 @@ trap 'git -C /repo checkout -- . ; rm -rf /tmp/verif-selftest-out' EXIT
 run_one() { # label prop
   local out code
   out=$(./check "$2" quick 2>&1); code=$?
-  local first; first=$(echo "$out" | grep -m1 'detail:' | cut -c1-200 | tr '\t' ' ')
+  local first; first=$(echo "$out" | grep -m1 "detail:" | python3 -c "import sys; print(sys.stdin.read()[:200].replace(chr(9),chr(32)).strip())")
   printf "%s\t%s\texit=%s\t%s\n" "$1" "$2" "$code" "$first" | tee -a "$OUT.tmp"
 }
 if [ "$MODE" = fixes ] || [ "$MODE" = all ]; then
